@@ -5,6 +5,7 @@ CONSTANTS
  HashSession = TRUE
  HashId = TRUE
  DedupMode = "peer+id"
+ AtomicDedup = TRUE
  AllowRelay = TRUE
 CONSTRAINT Mark
 POSTCONDITION Report
